@@ -22,7 +22,7 @@ func errKind(err error) string {
 func vRun(op string, in M) M {
 	switch op {
 	case "b1t8.Encode":
-		src := vBytes(in["bytes"])
+		src := vBuf("b1t8.Encode src", in["bytes"])
 		keep := append([]byte{}, src...)
 		dst := make(trinary.Trits, EncodedLen(len(src)))
 		for i := range dst { // a reused destination: every trit must be written
